@@ -30,6 +30,12 @@ def rt_q(nb, role="prove", mutate=None, name=None):
                  unwindset="hex_get_byte_ir.0:%d" % (8 * (2 * nb + 1) + 12), gen=GEN, timeout=3600, mem_gb=12, role=role, mutate=mutate)
 
 
+def lines_q(sp, role="prove", mutate=None, name=None):
+    n = 11 if sp else 9
+    return Query(name or "c18-addressed-lines-%s" % ("space" if sp else "nospace"), "c18.c", "h_lines", defines={"LEN": 5, "SP": sp}, unwind=n + 4,
+                 unwindset="hex_get_byte_ir.0:%d" % (n + 16), gen=GEN, timeout=3600, mem_gb=12, role=role, mutate=mutate)
+
+
 def dump_q(nb, role="prove", mutate=None, name=None):
     return Query(name or "c18-dump-%dbytes" % nb, "c18_dump.c", "h_dump", defines={"NB": nb}, unwind=nb + 3, timeout=600, mem_gb=4, role=role, mutate=mutate)
 
@@ -38,6 +44,7 @@ def queries(tier, kf):
     lmax = 5 if tier == "quick" else 7
     qs = [call_q(L) for L in range(0, lmax + 1)]
     qs += [rt_q(1), rt_q(2)] + ([rt_q(3)] if tier == "thorough" else [])
+    qs += [lines_q(0)] + ([lines_q(1)] if tier == "thorough" else [])
     qs += [dump_q(n) for n in ((0, 1, 15, 16, 17, 31, 32, 33) if tier == "quick" else range(0, 49))]
     cans = [("parser-overread", call_q(4, role="canary", name="c18-canary-parser-overread",
                                         mutate=[("librfn/hex.c", "\tif (isxdigit((int) s[0]) && isxdigit((int) s[1])) {", "\tif (isxdigit((int) s[0]) && isxdigit((int) s[2])) {")])),
